@@ -885,6 +885,17 @@ class Run:
         return self.call(f, args, kwargs, n)
 
     def call(self, f: Any, args: list[Any], kwargs: dict[str, Any], n: ast.AST | None) -> Any:  # noqa: PLR0911
+        if isinstance(f, LocalFn):
+            h = getattr(self.spec, "call_local", None)
+            if h is not None:
+                r = h(self, f, args, kwargs, n)
+                if r is not NotImplemented:
+                    return r
+            fi = FuncInfo(f"{f.frame.fi.qualname if f.frame.fi else '?'}.<locals>.{f.node.name}", f.frame.module, None, f.node, "", [])
+            outer = f.frame.env
+            saved = dict(outer)
+            res = self.call_function(fi, None, args, kwargs, n, closure=outer)
+            return res
         if isinstance(f, BuiltinV):
             return self.call_builtin(f.name, args, kwargs, n)
         if isinstance(f, BoundMethod):
@@ -963,10 +974,13 @@ class Run:
         return r
 
     # bind parameters & run a function body inline
-    def call_function(self, fi: FuncInfo, recv: Any, args: list[Any], kwargs: dict[str, Any], n: ast.AST | None) -> Any:
+    def call_function(self, fi: FuncInfo, recv: Any, args: list[Any], kwargs: dict[str, Any], n: ast.AST | None, closure: dict[str, Any] | None = None) -> Any:
         a = fi.node.args
         params = [p.arg for p in a.posonlyargs + a.args]
         env: dict[str, Any] = {}
+        if closure is not None:
+            # read-only view of the enclosing function's names (free variables of the nested def)
+            env.update({k: v for k, v in closure.items() if not k.startswith("$")})
         pos = list(args)
         if fi.cls is not None and "staticmethod" not in fi.decorators:
             if recv is None and pos:
@@ -1002,10 +1016,19 @@ class Run:
             # definite-assignment tracking: every local assigned somewhere starts unbound
             for name in _assigned_names(fi.node):
                 env.setdefault(name, _UNBOUND)
+            is_gen = any(isinstance(nd, (ast.Yield, ast.YieldFrom)) for st0 in fi.node.body for nd in ast.walk(st0) if not isinstance(st0, ast.FunctionDef))
+            if is_gen:
+                env["$yield"] = self.heap.alloc("list", {"seq": None, "ek": None})
             try:
                 self.exec_block(self.program.body_of(fi))
             except _Return as r:
-                return r.value
+                if not is_gen:
+                    return r.value
+            if is_gen:
+                acc = env["$yield"]
+                hint = getattr(self.spec, "yield_kind", None)
+                t, ek = self.as_seq(acc, n, hint)
+                return SeqV(t, ek)
             return None
         finally:
             self.frames.pop()
@@ -1269,7 +1292,17 @@ class Run:
         if isinstance(st.value, ast.Constant):
             return
         if isinstance(st.value, (ast.Yield, ast.YieldFrom)):
-            raise OutOfDialect("yield", st)
+            # generator functions are modelled as building the list of yielded values (DESIGN 2.2)
+            acc = self.frame.env.get("$yield")
+            if acc is None:
+                raise OutOfDialect("yield outside a generator frame", st)
+            if isinstance(st.value, ast.Yield):
+                if st.value.value is None:
+                    raise OutOfDialect("bare yield", st)
+                self.list_method(acc, "append", [self.eval(st.value.value)], {}, st)
+            else:
+                self.list_method(acc, "extend", [self.eval(st.value.value)], {}, st)
+            return
         self.eval(st.value)
 
     def s_Return(self, st: ast.Return) -> None:
@@ -1405,7 +1438,7 @@ class Run:
             self.exec_block(st.orelse)
 
     def s_FunctionDef(self, st: ast.FunctionDef) -> None:
-        self.frame.env[st.name] = Opaque(f"localdef:{st.name}")
+        self.frame.env[st.name] = LocalFn(st, self.frame)
 
     def s_Import(self, st: ast.Import) -> None:
         pass
@@ -1678,6 +1711,14 @@ class Run:
 
 
 # ------------------------------------------------------------------ helpers
+class LocalFn:
+    """a function defined inside the function under verification (closure over its frame)"""
+
+    def __init__(self, node: ast.FunctionDef, frame: "Frame"):
+        self.node = node
+        self.frame = frame
+
+
 class _Unbound:
     def __repr__(self) -> str:
         return "<unbound>"
